@@ -282,9 +282,6 @@ example : add exHist { exHist with edges := .flat [0, 1, 4] } 1 ⟨1 / 100000000
 example : add exHist exHist2 1 ⟨1 / 1000000000, 0⟩ = .error .lenaValueError :=
   add_rejects_nbins _ _ _ _ (by decide +kernel)
 
-/-- no axis of the edges is empty (true of every constructed histogram) -/
-def Edges.NonEmptyAxes (e : Edges) : Prop := ∀ ax ∈ e.axes, ax ≠ []
-
 /-- "only for equal edges": with zero tolerances, histograms (with non-empty edge arrays) that were added have
 the same edges -/
 theorem add_only_equal_edges (a b c : Hist) (w : Q) (h : add a b w ⟨0, 0⟩ = .ok c)
@@ -889,12 +886,6 @@ theorem mkHist_wf (e : Edges) (init : Q) (h : Hist) (hk : mkHist e none init = .
 
 example : (mkHist (.nested [[0, 1, 3], [0, 2]]) none 0).toOption.map (fun h => values h.bins) = some [0, 0] := by
   decide +kernel
-
-/-- a histogram given bins of the shape of its (checked) edges -/
-structure Hist.Valid (h : Hist) : Prop where
-  wf : h.WF
-  edges_ok : checkEdgesIncreasing h.edges = .ok ()
-  not_single_nested : ∀ ax, h.edges ≠ .nested [ax]
 
 theorem isclose1_self (t : Tol) (hr : 0 ≤ t.rel) (x : Q) : isclose1 t x x = true := by
   simp only [isclose1, Rat.abs]
